@@ -220,6 +220,8 @@ def generate_embedded(r):
                 ops.append({"k": "embed", "m": r.randrange(100), "op": {"k": "mod", "t": r.randrange(1000), "any": False}})
             elif x < 0.74:
                 ops.append({"k": "save"})
+            elif x < 0.80:
+                ops.append(builder.gen_op(r, {"bad": 1}) if r.random() < 0.5 else {"k": "embed", "m": r.randrange(100), "op": builder.gen_op(r, {"bad": 1})})
             else:
                 ops.append(builder.gen_link_op(r))
         ops.append({"k": "save_load", "slotless": slotless_run and r.random() < 0.7})
@@ -244,6 +246,8 @@ def generate(seed, i, tier="quick"):
                 ops.append({"k": "mod", "t": r.randrange(1000), "any": False})
             elif x < 0.16:
                 ops.append({"k": "save"})
+            elif x < 0.22:
+                ops.append(builder.gen_op(r, {"bad": 1}))
             else:
                 ops.append(builder.gen_link_op(r, foreign_p=fp))
         ops.append({"k": "save_load", "slotless": slotless_run and r.random() < 0.7})
